@@ -174,9 +174,9 @@ func init() {
 		Assumptions: []string{"reading D6: 'for an activity' = the transitive Activity struct; items embedded by value are outside"},
 		Bound: func(tier string) string {
 			if tier == "thorough" {
-				return "all paths of depth <= 2 over every item position with 5 node types; paths of depth 3 whose steps range over the walked properties plus 4 control positions (node types Object/Activity); pointer-to-list form of every single-item position; every list property a window of one shared backing array (3 orders)"
+				return "all paths of depth <= 2 over every item position with 5 node types; paths of depth 3 whose steps range over the walked properties plus 4 control positions (node types Object/Activity); pointer-to-list form of every single-item position; every list property a window of one shared backing array (3 orders); families added after round 5: DESIGN.md 8.11"
 			}
-			return "paths of depth <= 2 over every item position, 3 node types; chains of depth 4/6/9/20/40/70 along every walked property; lists of 17/33/65 members (carriers with 40 bto and 70 bcc entries, three identities occurring twice) in every walked position; pointer-to-list form of every single-item position; every list property a window of one shared backing array (3 orders)"
+			return "paths of depth <= 2 over every item position, 3 node types; chains of depth 4/6/9/20/40/70 along every walked property; lists of 17/33/65 members (carriers with 40 bto and 70 bcc entries, three identities occurring twice) in every walked position; pointer-to-list form of every single-item position; every list property a window of one shared backing array (3 orders); families added after round 5: DESIGN.md 8.11"
 		},
 		DeadlineQuick: 5 * time.Minute,
 		Run:           c11Run,
